@@ -25,6 +25,7 @@ import zipfile
 from pathlib import PurePosixPath
 
 import corpus
+from props import c04_docs as D
 from props import c04_history as H
 from props import c04_legacy as LG
 from props import c04_oracle as O
@@ -40,7 +41,12 @@ RULE = ("tables: empty / rectangular / ragged / with empty rows, per table class
         "BLIP records (every type / instance, DIB of every bit depth, refused headers, truncated, duplicate, secondary UID); "
         "process histories (mkdir / write / rm / symlink / chdir interleaved with populate_from_path, extractor and read_file "
         "calls: same relative path under two working directories, path appearing / disappearing, re-targeted symlink, "
-        "path-None-path, siblings, random walks), every call judged against the host as it is at that call. "
+        "path-None-path, siblings, random walks), every call judged against the host as it is at that call; "
+        "several images at once: per image class, lists of sources (fresh payloads, none, one object stored in several images) "
+        "x read order x one stream closed, collected first and read afterwards, against the heap model; generated DOCX / PPTX / XLSX / "
+        "ODT / ODP / ODS / ODG / EPUB / HTML documents in which one picture file is placed several times (same unit, other units) and "
+        "every optional text-bearing element / attribute of picture frames, units and document properties is independently absent / "
+        "present-but-empty / white space / text. "
         "distinct = distinct (component, input) pairs; non-trivial = non-empty input")
 ASSUMPTIONS = [
     "pathlib.PurePosixPath / os.path.exists / os.path.realpath are the stdlib's (modelled in S2T/Model/Iface.lean, tied here)",
@@ -48,9 +54,12 @@ ASSUMPTIONS = [
     "str.isdecimal / int() digit values are a parameter of the model (unicodedata.decimal supplied per case)",
     "third-party parsers (zipfile, ElementTree, olefile, openpyxl, pypdf, email) produce the objects the extractors read",
     "that no accessor raises and that fields hold their declared types is shown only on the results explored here",
+    "io.BytesIO object semantics (tell / read / seek(0) / close, one position per object) — the heap model of S2T/Model/IfaceStreams.lean is tied here (c04.collect)",
+    "xml.etree.ElementTree: `.text` of an element that is present but empty is None (the three states of S2T/Model/IfaceOptText.lean)",
 ]
 TRUSTED = ["model of data_types accessors, PurePosixPath, RTF \\uN decoding in S2T/Model/Iface.lean",
-           "tools/gen/iface.py (AST data-flow classification of the constructor call sites)"]
+           "tools/gen/iface.py (AST data-flow classification of the constructor call sites; origin of the payload object per site; "
+           "form of every get_bytes(); guard classification of every `.text` read)"]
 
 LIMIT_S = 15
 MAX_REPLAY_BYTES = 700_000
@@ -290,6 +299,203 @@ def _check_default_sites(ctx, violations):
             violations.append(Violation(k, f"{cname} as built by a constructor site that does not pass {fld}: {what}"[:400],
                                         {"kind": "image-default", "cls": cname, "field": fld}))
 
+
+
+# ----------------------------------------------------------------------------- B2. several images at once (stream identity)
+def _collect_case(cls, sources, order, close):
+    """what the real classes do: images built like the constructor sites build them (`fresh`: own payload object;
+    `cached`: ONE stream object per key stored in every image of that key — the defect class), get_bytes() of all
+    collected first, optionally one stream closed, then read in `order`"""
+    flds = {f.name: f for f in dataclasses.fields(cls)}
+    pf = "data" if "data" in flds else "blob"
+    is_stream = "BytesIO" in str(flds[pf].type)
+    cache, ims = {}, []
+    for s_ in sources:
+        if s_["t"] == "none":
+            ims.append(_mk(cls))
+            continue
+        v = bytes(s_["data"])
+        if is_stream:
+            if s_["t"] == "cached":
+                if s_["key"] not in cache:
+                    cache[s_["key"]] = io.BytesIO(v)
+                obj = cache[s_["key"]]
+                v = obj.getvalue()
+            else:
+                obj = io.BytesIO(v)
+        else:
+            obj = v
+        kw = {pf: obj}
+        if "size_bytes" in flds:
+            kw["size_bytes"] = len(v)
+        ims.append(_mk(cls, **kw))
+    streams, raised = [], False
+    for im in ims:
+        try:
+            streams.append(im.get_bytes())
+        except ValueError:
+            streams.append(None)
+            raised = True
+    if close is not None and close < len(streams) and streams[close] is not None:
+        streams[close].close()
+    reads = []
+    for i in order:
+        st = streams[i] if i < len(streams) else None
+        if st is None:
+            reads.append(None)
+            continue
+        try:
+            pos = st.tell()
+            reads.append({"pos": pos, "data": list(st.read())})
+        except ValueError:
+            reads.append(None)
+    live = [id(x) for x in streams if x is not None]
+    return {"reads": reads, "sizes": [getattr(im, "size_bytes", None) for im in ims], "raised": raised, "distinct": len(set(live)) == len(live)}
+
+
+def _gen_collect_cases(ctx):
+    rng = ctx.rng
+    F = lambda *b: {"t": "fresh", "data": list(b)}   # noqa: E731
+    C = lambda k, *b: {"t": "cached", "key": k, "data": list(b)}   # noqa: E731
+    N = {"t": "none"}
+    cases = [([F(1, 2, 3), F(4, 5)], [0, 1], None), ([F(1, 2, 3), F(4, 5)], [1, 0], None), ([F(1), N, F()], [2, 1, 0], None),
+             ([F(1, 2), F(1, 2)], [0, 1], 0), ([C(1, 7, 8, 9), C(1, 7, 8, 9)], [0, 1], None), ([C(1, 7, 8, 9), C(1, 7, 8, 9)], [1], 0),
+             ([C(1, 7), F(7), C(1, 7), C(2, 5, 5)], [3, 2, 1, 0], None), ([F(9)] * 5, [4, 0, 2, 1, 3, 0], 2)]
+    for _ in range(ctx.n(12, 200)):
+        n = rng.randint(1, 6)
+        srcs = []
+        for _ in range(n):
+            r = rng.random()
+            data = [rng.randrange(256) for _ in range(rng.choice((0, 1, 3, 9)))]
+            srcs.append(N if r < 0.15 else C(rng.randint(1, 2), *data) if r < 0.4 else F(*data))
+        # one object per key holds ONE content: the first source of a key decides
+        first = {}
+        for s_ in srcs:
+            if s_["t"] == "cached":
+                s_["data"] = first.setdefault(s_["key"], s_["data"])
+        order = [rng.randrange(n) for _ in range(rng.randint(1, n + 2))] if rng.random() < 0.5 else rng.sample(range(n), n)
+        cases.append((srcs, order, rng.choice([None, None, rng.randrange(n)])))
+    return cases
+
+
+def _check_collect(ctx, broken):
+    classes = _classes("ImageInterface")
+    cases = _gen_collect_cases(ctx)
+    for cls in classes:
+        name = cls.__name__
+        flds = {f.name: f for f in dataclasses.fields(cls)}
+        pf = "data" if "data" in flds else "blob"
+        kind = "stream" if "BytesIO" in str(flds[pf].type) else "bytes"
+        outs = ctx.drive([{"op": "c04.collect", "kind": kind, "sources": s_, "order": o, "close": c} for s_, o, c in cases])
+        bad = 0
+        for (srcs, order, close), o in zip(cases, outs):
+            shared = kind == "stream" and any(x["t"] == "cached" for x in srcs)
+            ctx.case(("collect", name, json.dumps(srcs), tuple(order), close), nontrivial=len(srcs) > 1)
+            ctx.count(f"collect/{name}/" + ("shared-object" if shared else "own-objects") + ("/one-closed" if close is not None else ""))
+            try:
+                impl = _collect_case(cls, srcs, order, close)
+            except Exception as e:  # noqa: BLE001
+                impl = {"raised-in-harness": f"{type(e).__name__}: {e}"[:100]}
+            if "sizes" in impl and "size_bytes" not in flds:
+                impl["sizes"] = o.get("sizes")
+            if impl != o:
+                bad += 1
+                if bad <= 2:
+                    broken.append(Broken("correspondence", "c04.collect", f"{name}: sources={srcs} order={order} close={close}: impl={str(impl)[:250]} model={str(o)[:250]}",
+                                         case={"component": "collect", "cls": name, "sources": srcs, "order": order, "close": close}))
+    ctx.sample({"component": "collect", "sources": cases[6][0], "order": cases[6][1]})
+
+
+def _collect_oracle(c):
+    """the statement on image objects built from FRESH sources only (what the constructor sites build): every stream
+    collected first and read afterwards is at 0 and delivers size_bytes bytes; the others survive one being closed"""
+    cls = getattr(_dt(), c["cls"])
+    srcs = [s_ if s_["t"] != "cached" else {"t": "fresh", "data": s_["data"]} for s_ in c["sources"]]
+    msgs = []
+    for close in (None, c.get("close")):
+        r = _collect_case(cls, srcs, c["order"], close)
+        for i, rd in zip(c["order"], r["reads"]):
+            if close is not None and i == close:
+                continue
+            want = len(srcs[i].get("data", []))
+            if rd is None:
+                msgs.append(f"image {i}: get_bytes() / its stream raised although only the stream of image {close} was closed")
+            elif rd["pos"] != 0 or len(rd["data"]) != want:
+                # an index read twice is at its end the second time: only first reads count
+                if c["order"].index(i) == list(zip(c["order"], r["reads"])).index((i, rd)):
+                    msgs.append(f"image {i}: stream at position {rd['pos']} delivering {len(rd['data'])} of {want} bytes after the streams of all images were collected")
+        if not r["distinct"]:
+            msgs.append("two image objects built from separate payloads return the same stream object")
+    return msgs
+
+
+# ----------------------------------------------------------------------------- F6. generated container documents
+_DOC_META_EXPECT = {
+    "docx": {"title": "title", "creator": "author", "subject": "subject", "keywords": "keywords", "description": "comments"},
+    "pptx": {"title": "title", "creator": "author", "subject": "subject", "keywords": "keywords", "description": "comments"},
+    "xlsx": {"title": "title", "creator": "creator", "subject": "subject", "keywords": "keywords", "description": "description"},
+    "odt": {f: f for f in D.META_FIELDS}, "odp": {f: f for f in D.META_FIELDS}, "ods": {f: f for f in D.META_FIELDS}, "odg": {f: f for f in D.META_FIELDS},
+    "epub": {"title": "title", "creator": "creator", "description": "description"},
+    "html": {"title": "title", "creator": "author", "description": "description", "keywords": "keywords"},
+}
+
+
+def _doc_findings(spec, path="g/doc"):
+    """the statement on the document a spec describes: (status, [(key, what)], name, bytes)"""
+    from sharepoint2text.parsing import router
+    name, blob = D.build(spec)
+    fn = router.get_extractor(name)
+    p = None if path is None else path + "." + spec["fmt"]
+    with _MemLimit():
+        r = corpus.run_extractor(fn, blob, path=p, limit_s=LIMIT_S)
+    if r[0] == "family":
+        return "rejected", [], name, blob
+    if r[0] == "hang":
+        return "hang", [], name, blob
+    if r[0] == "other":
+        return "other:" + r[1], [(f"extract-raises:{fn.__name__}:generated", f"extractor raised {r[1]} (not an ExtractionError)")], name, blob
+    found = []
+    for res in r[1][:20]:
+        found += O.walk(res, p)
+    if r[1]:
+        md = r[1][0].get_metadata()
+        for f, attr in _DOC_META_EXPECT.get(spec["fmt"], {}).items():
+            want = (spec.get("meta") or {}).get(f)
+            if want and want.strip() == want and hasattr(md, attr) and getattr(md, attr) != want:
+                found.append((f"property-changed:{type(md).__name__}.{attr}", f"stored document property {f} = {want!r} is reported as {getattr(md, attr)!r}"))
+    return "ok", found, name, blob
+
+
+def _doc_specs(ctx):
+    rng = ctx.rng
+    out = []
+    for fmt in D.FORMATS:
+        fixed = D.fixed_specs(fmt)
+        if not ctx.thorough:     # the two placement documents always; a seed-dependent third of the one-at-a-time grid
+            fixed = fixed[:2] + [s_ for i, s_ in enumerate(fixed[2:]) if (i + ctx.seed) % 3 == 0]
+        out += fixed
+        for _ in range(ctx.n(12, 300)):
+            out.append(D.random_spec(rng, fmt))
+    return out
+
+
+def _check_docs(ctx, violations):
+    seen_keys = {v.key for v in violations}
+    for spec in _doc_specs(ctx):
+        st, found, name, blob = _doc_findings(spec)
+        ctx.case(("doc", json.dumps(spec, sort_keys=True)))
+        used = [p["part"] for u in spec["units"] for p in u["pics"]]
+        ctx.count(f"results/generated-doc/{spec['fmt']}/{st.split(':')[0]}" + ("/picture-file-placed-several-times" if len(set(used)) < len(used) else ""))
+        for u in spec["units"]:
+            for p in u["pics"]:
+                for it in ("name", "title", "desc"):
+                    v = p.get(it)
+                    ctx.count(f"results/generated-doc/frame-{it}/" + ("absent" if v is None else "empty" if v == "" else "blank" if not v.strip() else "text"))
+        for key, what in found:
+            if key not in seen_keys:
+                seen_keys.add(key)
+                violations.append(Violation(key, f"generated {D.shape(spec)}: {what}"[:400], {"kind": "doc", "spec": spec}))
+    ctx.sample({"component": "generated-doc", "spec": D.fixed_specs("odt")[0]})
 
 # ----------------------------------------------------------------------------- C. paths
 def _path_cases(ctx, tmpdir):
@@ -1037,10 +1243,12 @@ def correspondence(ctx):
     broken, violations = [], []
     _check_tables(ctx, broken)
     _check_images(ctx, broken)
+    _check_collect(ctx, broken)
     _check_paths(ctx, broken)
     _check_unicode(ctx, broken)
     _check_readers(ctx, broken)
     _check_results(ctx, violations, broken)
+    _check_docs(ctx, violations)
     _check_default_sites(ctx, violations)
     _check_blips(ctx, broken, violations)
     _check_histories(ctx, broken, violations)
@@ -1076,6 +1284,10 @@ def _direct_oracle(ctx, b):
         w.image(c["cls"], im)
         return [Violation(k, f"{c['cls']} built like the constructor sites do ({len(payload or b'')} bytes): {what}"[:400],
                           {"kind": "image", "cls": c["cls"], "payload_b64": c["payload_b64"]}) for k, what in w.out]
+    if comp == "collect":
+        msgs = _collect_oracle(c)
+        return [Violation(f"bytes-collected:{c['cls']}", f"{c['cls']} objects built like the constructor sites do, get_bytes() of all collected first: {m}"[:400],
+                          {"kind": "collect", "cls": c["cls"], "sources": c["sources"], "order": c["order"], "close": c.get("close")}) for m in msgs[:1]]
     if comp == "path":
         return _path_oracle(c.get("path"))
     if comp == "blip":
@@ -1123,6 +1335,9 @@ def search(ctx, broken):
         if out:
             return out
     violations = []
+    _check_docs(ctx, violations)
+    if violations:
+        return violations
     _check_blips(ctx, [], violations)
     if violations:
         return violations
@@ -1162,6 +1377,13 @@ def replay(ctx, payload):
                 if getattr(md, f, None) != want:
                     msgs.append(f"property {f}: stored {want!r}, reported {getattr(md, f, None)!r}")
         return (not msgs), "; ".join(msgs)[:600] or f"property holds on the recorded input ({st})"
+    if kind == "doc":
+        st, found, name, _ = _doc_findings(rep["spec"])
+        msgs = [w for _, w in found]
+        return (not msgs), "; ".join(msgs)[:600] or f"every result of the generated {rep['spec']['fmt']} document honours the interface ({st})"
+    if kind == "collect":
+        msgs = _collect_oracle(rep)
+        return (not msgs), "; ".join(msgs)[:600] or "every stream collected first and read afterwards is at 0 and delivers size_bytes bytes"
     if kind == "table":
         cls = getattr(dt, rep["cls"])
         obj = cls(data=[dict(r) for r in rep["data"]]) if rep["cls"] == "XlsSheet" else cls(data=[list(r) for r in rep["data"]])
